@@ -18,6 +18,7 @@ from __future__ import annotations
 import asyncio
 import contextlib
 import logging
+import os
 import socket
 import threading
 import time
@@ -25,7 +26,7 @@ from typing import Any
 
 from hypothesis import strategies as st
 
-from ..core import Check, HarnessError, Inconclusive, Layer, Outcome, Violation
+from ..core import Check, HarnessError, Inconclusive, Layer, Outcome, Violation, case_digest
 
 INF = 10**12
 
@@ -34,7 +35,13 @@ INF = 10**12
 # RuntimeError), marks the server closed and returns, while the server goes on to come up with its listeners open.
 # With the flag on, the standalone generator keeps service_init instantaneous (so the window is a few loop iterations) and
 # the oracle skips exactly that shape, counting it, so that the search continues past it.
-EXCLUDE_D8 = True
+EXCLUDE_D8 = os.environ.get("VERIF_C18_INCLUDE_D8") != "1"
+
+# Finding D9 (reported, transient): the standalone server_close() racing with a shutdown() in progress returns before the
+# listener sockets are closed (the portal refuses the call with RuntimeError, which is swallowed; the serving thread closes
+# the listeners moments later).  With the flag on, a listener that is open when server_close() returns but closed within a
+# 2 s grace period while a serve_forever() that had been up is unwinding is counted, not reported.
+EXCLUDE_D9 = os.environ.get("VERIF_C18_INCLUDE_D9") != "1"
 
 LIFECYCLE = ("serve", "shutdown", "close", "activate")
 REFUSALS = ("ServerAlreadyRunning", "ServerClosedError", "BusyResourceError")
@@ -238,11 +245,27 @@ def check_history(
                 return True
         return False
 
+    def d9_shaped(c: dict) -> bool:
+        """recorded finding D9 (standalone only, transient): server_close() racing with a shutdown in progress finds a
+        portal that no longer accepts calls, swallows the RuntimeError and returns while the serving thread has not closed
+        the listeners yet; they are closed moments later by that thread's own unwinding."""
+        if not (EXCLUDE_D9 and init_stamps is not None):
+            return False
+        if c["obs"].get("open_after_grace") != []:
+            return False
+        if any(f["up"] is not None and f["up"] < c["start"] and _end(f) > c["start"] for f in serves):
+            if skipped is not None and "D9-signature-skipped" not in skipped:
+                skipped.append("D9-signature-skipped")
+            return True
+        return False
+
     for c in closes_ok:
         if c["end"] is None:
             continue
         obs = c["obs"]
         if (obs.get("is_serving_at_end") or obs.get("open_listeners_at_end")) and d8_shaped(c):
+            continue
+        if obs.get("open_listeners_at_end") and not obs.get("is_serving_at_end") and d9_shaped(c):
             continue
         for f in serves:
             if f["up"] is not None and f["up"] > c["end"] and not d8_shaped(c, f):
@@ -617,6 +640,13 @@ class _Hang(Exception):
     pass
 
 
+def _fileno_or_closed(sock: Any) -> int:
+    try:
+        return int(sock.fileno())
+    except Exception:  # noqa: BLE001 - the socket object is gone
+        return -1
+
+
 def _standalone_once(case: dict) -> dict:
     """one execution of the history with real threads.  Raises _Hang if an operation outlives its watchdog (after having
     torn everything down as far as possible)."""
@@ -641,9 +671,6 @@ def _standalone_once(case: dict) -> dict:
 
     srv = _make_standalone_server(case, on_service_init)
 
-    def sample_sockets() -> None:
-        pass
-
     class Up(_ThreadUpEvent):
         pass
 
@@ -653,7 +680,6 @@ def _standalone_once(case: dict) -> dict:
             rec["harness"] = True
         kind = op["op"]
         if kind == "close":
-            sample_sockets()
             with seen_lock:
                 seen_before = list(seen_sockets)
         rec["start"] = hist.stamp()
@@ -666,16 +692,16 @@ def _standalone_once(case: dict) -> dict:
             elif kind == "close":
                 srv.server_close()
                 rec["obs"]["is_serving_at_end"] = bool(srv.is_serving())
-                still_open = []
-                for i, s in enumerate(seen_before):
-                    try:
-                        if s.fileno() != -1:
-                            still_open.append(i)
-                    except Exception:  # noqa: BLE001 - proxy runner refused: the loop is gone, so is the socket
-                        pass
-                rec["obs"]["open_listeners_at_end"] = still_open
+                still_open = [i for i, sock in enumerate(seen_before) if _fileno_or_closed(sock) != -1]
+                rec["obs"]["open_listeners_at_end"] = list(still_open)
+                if still_open:
+                    # observation for the oracle: is the listener closed a moment later by somebody else's unwinding?
+                    t0 = time.monotonic()
+                    while still_open and time.monotonic() - t0 < 2.0:
+                        time.sleep(0.005)
+                        still_open = [i for i in still_open if _fileno_or_closed(seen_before[i]) != -1]
+                    rec["obs"]["open_after_grace"] = list(still_open)
             elif kind == "connect":
-                sample_sockets()
                 addrs = []
                 try:
                     addrs = list(srv.get_addresses())
@@ -778,7 +804,6 @@ def _standalone_once(case: dict) -> dict:
     else:
         raise HarnessError("C18 standalone: history threads still alive after the last harness shutdown round")
     # tear-down so that no thread or socket outlives the case
-    sample_sockets()
     if hang:
         guarded("H-shutdown-final", "shutdown")
     guarded("H-close", "close")
@@ -797,21 +822,21 @@ def _standalone_once(case: dict) -> dict:
     info["hang"] = hang
     info["leaked_threads"] = leaked_threads
     with seen_lock:
-        open_after = []
-        for i, s in enumerate(seen_sockets):
-            try:
-                if s.fileno() != -1:
-                    open_after.append(i)
-            except Exception:  # noqa: BLE001
-                pass
-    info["open_sockets_after_final_close"] = open_after
+        info["open_sockets_after_final_close"] = [i for i, sock in enumerate(seen_sockets) if _fileno_or_closed(sock) != -1]
     if hang:
         raise _Hang(info)
     return info
 
 
+_HANG_VERDICTS: dict[str, dict] = {}
+
+
 def run_standalone_case(case: dict) -> Outcome:
     logging.disable(logging.CRITICAL)
+    digest = case_digest(case)
+    if digest in _HANG_VERDICTS:  # a confirmed hang costs 3 x 30 s: do not pay again when the engine re-submits the same case
+        last = _HANG_VERDICTS[digest]
+        raise Violation("hang", last["message"], proto=case["proto"], history=last["history"])
     hangs: list[dict] = []
     info: dict | None = None
     for _attempt in range(3):
@@ -821,12 +846,9 @@ def run_standalone_case(case: dict) -> Outcome:
         except _Hang as h:
             hangs.append(h.args[0])
     if info is None:
-        raise Violation(
-            "hang",
-            f"an operation did not return within {OP_WATCHDOG_S}s in three consecutive runs: {hangs[-1]['hang']}",
-            proto=case["proto"],
-            history=hangs[-1]["history"],
-        )
+        message = f"an operation did not return within {OP_WATCHDOG_S}s in three consecutive runs: {hangs[-1]['hang']}"
+        _HANG_VERDICTS[digest] = {"message": message, "history": hangs[-1]["history"]}
+        raise Violation("hang", message, proto=case["proto"], history=hangs[-1]["history"])
     if hangs:
         raise Inconclusive(f"watchdog expired in {len(hangs)} run(s) but not in a re-run: {hangs[0]['hang']}")
     if info["leaked_threads"]:
@@ -859,8 +881,8 @@ CHECK = Check(
         "in time, or a serve_forever starts after a shutdown returned; distinct = sha1 of the canonical case JSON"
     ),
     layers=[
-        Layer("async", st_async_case, run_async_case, {"quick": 700, "thorough": 5000}),
-        Layer("standalone", st_standalone_case, run_standalone_case, {"quick": 36, "thorough": 60}, case_timeout_s=400.0),
+        Layer("async", st_async_case, run_async_case, {"quick": 3000, "thorough": 30000}),
+        Layer("standalone", st_standalone_case, run_standalone_case, {"quick": 40, "thorough": 200}, case_timeout_s=400.0),
     ],
     assumptions=[
         "async layer: listeners are in-memory objects handed out by a backend subclass; everything above them (server, task groups, cancel scopes, locks) is the unmodified library on the real asyncio backend, on a virtual clock",
